@@ -200,6 +200,17 @@ func (g *Gen) opAssign(o *out, sc *Scope) {
 		return
 	}
 	p := ps[g.n(len(ps))]
+	if i := strings.Index(p, "[ix(next(), len("); i >= 0 || strings.Contains(p, "(ix(next(), len(") {
+		// an empty slice makes the element operation panic; whether that happens before or
+		// after the calls on the right-hand side is not specified, so it is kept out
+		name := p[:strings.Index(p, "[")]
+		o.line("if len(%s) > 0 {", name)
+		o.ind++
+		defer func() {
+			o.ind--
+			o.line("}")
+		}()
+	}
 	switch t.Kind {
 	case KInt:
 		switch g.n(4) {
@@ -340,8 +351,9 @@ func (g *Gen) switchStmt(o *out, sc *Scope, depth int) {
 		}
 		if len(vals) == 0 {
 			// a non-constant case expression
-			vals = []string{g.expr(t, sc, 1)}
-			if strings.HasPrefix(vals[0], t.Name+"(") || strings.HasPrefix(vals[0], "\"") {
+			e, isConst := g.expr2(t, sc, 1)
+			vals = []string{e}
+			if isConst || strings.HasPrefix(vals[0], t.Name+"(") || strings.HasPrefix(vals[0], "\"") {
 				vals[0] = "id(" + vals[0] + ")"
 			}
 		}
